@@ -101,11 +101,20 @@ def runProgram (backend : Backend) (prog : Json) : Except String Json := do
       | none => out := out.push (Json.mkObj (base ++ [("outcome", Json.str "skipped")]))
       | some t =>
         let specF := frameJson (Spec.run db t.ast).frame
+        let compiled := Sql.compile t.ast ((t.cache.uuidToName.map (·.1)).map (fun u => (u, 1)))
         let sqlF : Json := if backend == .polars then Json.null else
-          match Sql.compile t.ast ((t.cache.uuidToName.map (·.1)).map (fun u => (u, 1))) with
+          match compiled with
           | .ok (c, _) => frameJson (Sql.run db c)
           | .error e => Json.str (match e with | .assertion w => "AssertionError:" ++ w | .keyError => "KeyError" | .valueError => "ValueError")
-        out := out.push (Json.mkObj (base ++ [("outcome", Json.str "ok"), ("spec", specF), ("sql", sqlF)]))
+        -- clause shape of the outermost SELECT (compared with the text of the real query)
+        let optInt (o : Option Int) : Json := match o with | some i => Json.num (Lean.JsonNumber.fromInt i) | none => Json.null
+        let shape : Json := if backend == .polars then Json.null else
+          match compiled with
+          | .ok (c, _) => Json.mkObj [("limit", optInt c.query.limit), ("offset", optInt (if c.query.limit.isSome then c.query.offset else none)),
+              ("where", Json.num c.query.where_.length), ("having", Json.num c.query.having.length),
+              ("group_by", Json.num c.query.groupBy.length), ("order_by", Json.num c.query.orderBy.length)]
+          | .error _ => Json.null
+        out := out.push (Json.mkObj (base ++ [("outcome", Json.str "ok"), ("spec", specF), ("sql", sqlF), ("shape", shape)]))
     else if op == "export" || op == "build_query" || op == "expr" then
       out := out.push (Json.mkObj (base ++ [("outcome", Json.str "n/a")]))
     else
